@@ -3,7 +3,7 @@
  "name": "implied_cluster_alloc",
  "props": ["C09"],
  "level": "U/k",
- "tier": "wip",
+ "tier": "quick",
  "harness": "h_implied",
  "enforce": ["implied_cluster_alloc"],
  "replace": ["extent_bmap"],
@@ -24,7 +24,7 @@
  "name": "extent_bmap",
  "props": ["C09"],
  "level": "P",
- "tier": "wip",
+ "tier": "quick",
  "harness": "h_extent_bmap",
  "enforce_rec": ["extent_bmap"],
  "replace": ["implied_cluster_alloc"],
@@ -42,7 +42,7 @@
  "name": "extent_bmap_giveback",
  "props": ["C09"],
  "level": "P",
- "tier": "wip",
+ "tier": "quick",
  "harness": "h_extent_bmap",
  "defines": ["GIVEBACK=1"],
  "enforce_rec": ["extent_bmap"],
